@@ -508,11 +508,23 @@ func c13One(r *Run, pool *Pool, c c13Case, cfgSeed uint64, st *c13Stats) {
 			if rng.Intn(4) == 0 {
 				opts.LineLimit = []int{1, 20, 80}[rng.Intn(3)]
 			}
+			gname := ""
+			if format == api.FormatIIFE && rng.Bool() {
+				// the global-name prefix is code esbuild writes itself; with and without `||=` available
+				gname = []string{"G", "a.b.c", "this.app.api", "this.x", "a[\"b-c\"].d", "ns.\u03c0.x", "globalThis.lib"}[rng.Intn(7)]
+				opts.GlobalName = gname
+				if rng.Bool() {
+					opts.Target = api.ES2019
+				}
+			}
 			rv, pv := transformSafe(c.Src, opts)
 			if pv != "" || len(rv.Errors) > 0 {
 				continue
 			}
 			what := fmt.Sprintf("format=%s,minify-ws=%v,charset=%d,line-limit=%d", formatName(format), opts.MinifyWhitespace, opts.Charset, opts.LineLimit)
+			if gname != "" {
+				what += fmt.Sprintf(",global-name=%s,target=%v", gname, opts.Target == api.ES2019)
+			}
 			var goalsToCheck []string
 			switch format {
 			case api.FormatESModule:
